@@ -56,3 +56,18 @@ Proof.
   - f_equal. apply filter_ext. intros n. rewrite andb_true_r. reflexivity.
 Qed.
 Print Assumptions generated_prune_source_literals_is_model.
+
+(** ** C01 / C07 theorems, stated of the functions generated from the source *)
+From UJ Require Props.C01 Props.C07.
+Theorem C01_prune_general_on_source :
+  forall (p : pgraph) (required : list nat) (output : option nat) (a b : nat),
+  In a (pnodes (gen_prune_plan p required output)) -> In b (pnodes (gen_prune_plan p required output)) ->
+  reach (to_graph p) a b -> reach (to_graph (gen_prune_plan p required output)) a b.
+Proof. intros p required output a b. rewrite generated_prune_plan_is_model. apply Props.C01.C01_prune_general. Qed.
+Print Assumptions C01_prune_general_on_source.
+
+Theorem C07_prune_acyclic_on_source :
+  forall (p : pgraph) (required : list nat) (output : option nat),
+  acyclic (to_graph p) -> acyclic (to_graph (gen_prune_plan p required output)).
+Proof. intros p required output. rewrite generated_prune_plan_is_model. apply Props.C07.C07_prune_acyclic. Qed.
+Print Assumptions C07_prune_acyclic_on_source.
